@@ -25,6 +25,21 @@ pub fn handle(words: &[&str]) -> String {
     format!("{re} {bits}")
 }
 
+/// `rxclasses REGEXTYPE PATTERN`: the -regex bracket-expression check (1: closed, classes and symbols well-formed)
+pub fn handle_rxclasses(words: &[&str]) -> String {
+    let [ty, pat] = words else {
+        return "badcase".into();
+    };
+    let Ok(p) = String::from_utf8(unhex(pat)) else {
+        return "badutf8".into();
+    };
+    match findutils::find::matchers::regex_verif::classes_ok(&p, ty) {
+        Some(true) => "1".into(),
+        Some(false) => "0".into(),
+        None => "badcase".into(),
+    }
+}
+
 /// `rxrefs REGEXTYPE PATTERN`: the -regex back-reference check (1: every reference is to a complete group)
 pub fn handle_rxrefs(words: &[&str]) -> String {
     let [ty, pat] = words else {
